@@ -51,16 +51,17 @@ Definition clear_case (c k : nat) (kids : list snode) (tgt : content) : content 
          end)
       (combine kids tgt).
 
-(** clearOnDifferentChoiceCase(existing, want) *)
+(** clearOnDifferentChoiceCase(existing, want): for every enclosing (choice, case) of [want], from
+    the innermost outwards, if the target has another case of that choice selected, clear it *)
 Definition clear_other_case (want : snode) (kids : list snode) (tgt : content) : content :=
-  match innermost (sguard want) with
-  | None => tgt
-  | Some (c, k) =>
-      match choose c kids tgt with
-      | None => tgt
-      | Some k' => if Nat.eqb k k' then tgt else clear_case c k' kids tgt
-      end
-  end.
+  fold_left
+    (fun (t : content) (ck : nat * nat) =>
+       let (c, k) := ck in
+       match choose c kids t with
+       | None => t
+       | Some k' => if Nat.eqb k k' then t else clear_case c k' kids t
+       end)
+    (rev (sguard want)) tgt.
 
 (** first row of [rows] whose key equals [key] (List.find in the reference store) *)
 Fixpoint find_row (keys : list nat) (key : list (option dnode)) (rows : list dnode) (i : nat) : option nat :=
